@@ -194,6 +194,23 @@ def rmDown (a : Array Elem) (last : Option Elem) (n idx : Nat) :
           else .ok none
   else .ok none
 
+/-- the "move up" half of one iteration of the `while (true)` loop of
+    `muggle_heap_remove`: `.ok (some a')` = moved up (`continue` with `idx / 2`) -/
+def rmUp (a : Array Elem) (last : Option Elem) (idx : Nat) : Except Err (Option (Array Elem)) :=
+  if idx / 2 ≠ 0 then
+    match rdN a (idx / 2) with
+    | .error e => .error e
+    | .ok pk =>
+      match derefKey last with
+      | .error e => .error e
+      | .ok l =>
+        if cmp l pk < 0 then
+          match wrN a idx pk with
+          | .error e => .error e
+          | .ok a' => .ok (some a')
+        else .ok none
+  else .ok none
+
 /-- the `while (true)` loop of `muggle_heap_remove`; `n` is the decremented size.
     `fuel` bounds the number of iterations (every iteration moves the hole one level;
     the theorems show `2 * n + 2` is never exhausted). -/
@@ -202,22 +219,7 @@ def rmLoop (fuel : Nat) (a : Array Elem) (last : Option Elem) (n idx : Nat) :
   match fuel with
   | 0 => .error .fuel
   | fuel + 1 =>
-    -- move up
-    let up : Except Err (Option (Array Elem)) :=
-      if idx / 2 ≠ 0 then
-        match rdN a (idx / 2) with
-        | .error e => .error e
-        | .ok pk =>
-          match derefKey last with
-          | .error e => .error e
-          | .ok l =>
-            if cmp l pk < 0 then
-              match wrN a idx pk with
-              | .error e => .error e
-              | .ok a' => .ok (some a')
-            else .ok none
-      else .ok none
-    match up with
+    match rmUp a last idx with
     | .error e => .error e
     | .ok (some a') => rmLoop fuel a' last n (idx / 2)
     | .ok none =>
